@@ -209,6 +209,28 @@ var templates = []template{
 		no := model.ErrorNumberType(rapid.SampledFrom([]int{0, 1, 7}).Draw(t, "errorNumber"))
 		return p.Msg(model.CmdClassifierTypeResult, p.FA([]uint{1}, 3), e.cli.Address(), false, p.DiscoveryRef, model.CmdType{ResultData: &model.ResultDataType{ErrorNumber: &no, Description: util.Ptr(model.DescriptionType("x"))}})
 	}},
+	{"write-filter-without-matching-payload", func(t *rapid.T, e *env, p *world.Peer) model.DatagramType {
+		// (d) filters and payload that do not fit: a selector / delete filter with an empty list, or
+		// with items that carry no identifiers - well-typed, approved by the application, not applicable
+		f := gen.ByFunction(model.FunctionTypeLoadControlLimitListData)
+		cmd := model.CmdType{Function: util.Ptr(model.FunctionTypeLoadControlLimitListData), LoadControlLimitListData: &model.LoadControlLimitListDataType{}}
+		switch rapid.IntRange(0, 2).Draw(t, "filters") {
+		case 0:
+			flt := model.NewFilterTypePartial()
+			flt.LoadControlLimitListDataSelectors = listgen.SelectorFor(f, []uint64{uint64(rapid.IntRange(0, 2).Draw(t, "sel"))}).Interface().(*model.LoadControlLimitListDataSelectorsType)
+			cmd.Filter = []model.FilterType{*flt}
+		case 1:
+			flt := &model.FilterType{CmdControl: &model.CmdControlType{Delete: &model.ElementTagType{}}}
+			flt.LoadControlLimitListDataSelectors = listgen.SelectorFor(f, []uint64{uint64(rapid.IntRange(0, 2).Draw(t, "sel"))}).Interface().(*model.LoadControlLimitListDataSelectorsType)
+			cmd.Filter = []model.FilterType{*flt, *model.NewFilterTypePartial()}
+		default:
+			cmd.Filter = []model.FilterType{*model.NewFilterTypePartial()}
+		}
+		if rapid.Bool().Draw(t, "itemWithoutIdentifier") {
+			cmd.LoadControlLimitListData.LoadControlLimitData = []model.LoadControlLimitDataType{{IsLimitActive: util.Ptr(true)}}
+		}
+		return p.Msg(model.CmdClassifierTypeWrite, p.FA([]uint{1}, 2), e.lc.Address(), rapid.Bool().Draw(t, "ack"), nil, cmd)
+	}},
 	{"write-hostile-values", func(t *rapid.T, e *env, p *world.Peer) model.DatagramType {
 		// (c) a write the stack accepts (bound writer, changeable limit, well-formed) whose values are
 		// legal JSON strings / numbers with a text or magnitude the stack cannot convert: they end up
